@@ -44,6 +44,9 @@ type EnvState struct {
 	jsonVals      map[string]Value
 	httpNext      []Value
 	acct          *acctEnv
+	selectNondet  bool
+	onSleep       Value
+	inSleepHook   bool
 	timeNames     map[*Term]int
 }
 
@@ -162,6 +165,14 @@ func init() {
 		in.path.tags = append(in.path.tags, t)
 		return nil
 	}
+	h["vOnSleep"] = func(in *Interp, fr *frame, a []Value) Value {
+		in.env.onSleep = a[0]
+		return nil
+	}
+	h["vSelectNondet"] = func(in *Interp, fr *frame, a []Value) Value {
+		in.env.selectNondet = true
+		return nil
+	}
 	h["vObserve"] = func(in *Interp, fr *frame, a []Value) Value {
 		in.path.observe = append(in.path.observe, a[0].(string)+"="+showValue(a[1]))
 		return nil
@@ -277,7 +288,7 @@ func (in *Interp) findStub(fn *ssa.Function, name string) stubFn {
 
 // reportHang records a hang violation (the program can make no further progress) and ends the path.
 func (in *Interp) reportHang(msg string, fr *frame) {
-	if in.feasible() {
+	if in.definitelyFeasible() {
 		in.ensureModel()
 		site := "?"
 		if fr != nil && fr.caller != nil {
@@ -551,7 +562,16 @@ func init() {
 	s["time.Sleep"] = func(in *Interp, fr *frame, a []Value) Value {
 		d := a[0].(*Term)
 		pos := in.tc.Ite(in.tc.Cmp(OpSLt, d, in.k64(0)), in.k64(0), d)
-		in.env.now = in.tc.Bin(OpAdd, in.clockNow(), pos)
+		wake := in.tc.Bin(OpAdd, in.clockNow(), pos)
+		if f := in.env.onSleep; f != nil && !in.env.inSleepHook {
+			// the rest of the system keeps running while this goroutine sleeps: the harness may let (part of) the
+			// time pass and deliver events; afterwards the sleeper wakes at its deadline
+			in.env.inSleepHook = true
+			in.call(fr, f, []Value{pos}, nil)
+			in.env.inSleepHook = false
+			in.assume(in.tc.Cmp(OpSLe, in.clockNow(), wake))
+		}
+		in.env.now = wake
 		return nil
 	}
 	s["time.Unix"] = func(in *Interp, fr *frame, a []Value) Value {
